@@ -16,6 +16,17 @@ pub struct RngScript {
 }
 
 impl RngScript {
+    /// The candidates a party drawing from this script sees, in order: explicit ones, then the
+    /// seeded filler, up to the draw budget (the reference parties draw exactly like the library).
+    pub fn stream(&self) -> Vec<[u8; 32]> {
+        let mut v = self.cands.clone();
+        let mut f = Prng::new(self.filler ^ 0x5EED_F111_E400_0001);
+        while v.len() < DRAW_BUDGET {
+            v.push(f.bytes32());
+        }
+        v.truncate(DRAW_BUDGET);
+        v
+    }
     pub fn to_json(&self) -> Value {
         json!({"c": self.cands.iter().map(hex::encode).collect::<Vec<_>>(), "f": self.filler})
     }
